@@ -249,3 +249,45 @@ Definition call_opts (c : call) : res (list copt) :=
   do env <- build (c_script c) []; select env (c_pass c).
 Definition run (F : forest) (c : call) : res (list report) :=
   do opts <- call_opts c; run_call F opts.
+
+(* ---- old behaviour, kept for the refutation witness in Props/C16.v ------------------- *)
+(* F-C16c (repaired by 4defab8): before the repair the options handed to a nested graph were
+   extracted — and so validated — only when that graph ran: runner.run called the plain
+   extractOption, there was no checkOption. *)
+Fixpoint run_graph_v0 (fuel : nat) (F : forest) (gi : nat) (pre : path) (inh : list N)
+         (opts : list copt) : res (list report) :=
+  match fuel with
+  | O => Err E_FUEL
+  | S f =>
+    match nth_error F gi with
+    | None => Err E_GRAPH
+    | Some g =>
+      do m <- extract_option g opts [];
+      res_flat_mapM (fun nd =>
+        if negb (n_runs nd) then Ok [] else
+        let p := pre ++ [n_key nd] in
+        let hs := inh ++ node_handlers (n_key nd) opts in
+        match n_kind nd with
+        | KComp ty =>
+            do its <- convert_items ty (om_get (n_key nd) m);
+            Ok [mkRep p (Some its) (if n_cb nd then Some hs else None)]
+        | KSub gj =>
+            do os <- convert_opts (om_get (n_key nd) m);
+            do rs <- run_graph_v0 f F gj p hs os;
+            Ok (mkRep p None (Some hs) :: rs)
+        end) g
+    end
+  end.
+Definition run_call_v0 (F : forest) (opts : list copt) : res (list report) :=
+  let inh := graph_handlers opts in
+  do rs <- run_graph_v0 (S (List.length F)) F 0 [] inh opts;
+  Ok (mkRep [] None (Some inh) :: rs).
+
+
+(* F-C16b (repaired by 3394fa8): a passthrough node had optionType == nil, which extractOption
+   takes for "this node is a sub graph": it accepted whatever was designated to or below it.
+   The passthrough is the node kind the graph does not wrap with callbacks (n_cb = false). *)
+Definition pass_as_sub (nd : node) : node :=
+  if n_cb nd then nd else mkNode (n_key nd) (KSub 0%nat) false (n_runs nd).
+Definition extract_option_v0b (g : graph) (opts : list copt) : res optmap :=
+  extract_option (map pass_as_sub g) opts [].
